@@ -9,6 +9,7 @@ CONSTANTS
   Gated = TRUE
   AllowGap = FALSE
   AllowPass = FALSE
+  AbortOnGap = TRUE
   DefectTakeAny = FALSE
   DefectNoJoin = TRUE
 INVARIANTS
@@ -20,6 +21,7 @@ INVARIANTS
   DbIsFoldOfPrefix
   FinalContent
   DropDrains
+  DropDrainsStrict
   NotifyAfterDurable
   StallOnlyBehindGap
   HeldBackBehindGap
